@@ -636,10 +636,112 @@ fn rx_ring(input: &[V]) -> Vec<V> {
     out
 }
 
+/// platform tx queue over 1..3 socket rings (socket/io/tx.rs, socket/ring.rs):
+/// case = [rings; log2 entries; (op, a, b)*]; see coq/model/TxRings.v
+fn tx_rings(input: &[V]) -> Vec<V> {
+    use s2n_quic_core::{
+        inet::SocketAddress,
+        io::tx::{Queue as _, Tx as _},
+        path::{Handle as _, MaxMtu, RemoteAddress},
+    };
+    use s2n_quic_platform::{
+        features::Gso,
+        message::{simple::Message, Message as _},
+        socket::{io::tx::Tx, ring},
+    };
+    let mut c = Cur::new(input);
+    let nr = c.next().clamp(0, 2) as usize + 1;
+    let k = c.next().clamp(0, 4) as u32;
+    let entries = 1u32 << k;
+    let payload_len = 128u32;
+    let mut producers = vec![];
+    let mut consumers = vec![];
+    for _ in 0..nr {
+        let (p, cns) = ring::pair::<Message>(entries, payload_len);
+        producers.push(p);
+        consumers.push(cns);
+    }
+    let gso = Gso::default();
+    gso.disable();
+    let max_mtu = MaxMtu::try_from(payload_len as u16).unwrap_or_default();
+    let mut tx = Tx::new(producers, gso, max_mtu);
+    let counts: Vec<Arc<CountWaker>> = (0..3).map(|_| Arc::new(CountWaker(AtomicUsize::new(0)))).collect();
+    let wakers: Vec<Waker> = counts.iter().map(|c| Waker::from(c.clone())).collect();
+    let ecount = Arc::new(CountWaker(AtomicUsize::new(0)));
+    let ewaker = Waker::from(ecount.clone());
+    let mut acquired = vec![0u32; nr];
+    let mut out = vec![];
+    while !c.done() {
+        let op = c.next();
+        let a = c.next().clamp(0, 64) as usize;
+        let b = c.next().clamp(0, 100000) as u32;
+        let i = a % nr;
+        match op {
+            0 => {
+                let mut pushed = 0;
+                tx.queue(|queue| {
+                    for idx in 0..a {
+                        let mut addr = SocketAddress::default();
+                        addr.set_port(idx as u16 + 1);
+                        let handle = <Message as s2n_quic_platform::message::Message>::Handle::from_remote_address(
+                            RemoteAddress::from(addr),
+                        );
+                        let payload = [idx as u8; 4];
+                        if queue.push((handle, &payload[..])).is_err() {
+                            break;
+                        }
+                        pushed += 1;
+                    }
+                });
+                out.push(pushed as V);
+                for j in 0..3 {
+                    if j < nr {
+                        acquired[j] = consumers[j].acquire(u32::MAX);
+                        out.push(acquired[j] as V);
+                    } else {
+                        out.push(0);
+                    }
+                }
+            }
+            1 => match consumers[i].poll_acquire(u32::MAX, &mut Context::from_waker(&wakers[i])) {
+                Poll::Ready(n) => {
+                    acquired[i] = n;
+                    out.push(1);
+                    out.push(n as V);
+                }
+                Poll::Pending => {
+                    out.push(0);
+                    out.push(0);
+                }
+            },
+            2 => {
+                let n = b.min(acquired[i]);
+                consumers[i].release(n);
+                acquired[i] -= n;
+                out.push(0);
+                out.push(n as V);
+            }
+            _ => {
+                out.push(match tx.poll_ready(&mut Context::from_waker(&ewaker)) {
+                    Poll::Pending => 0,
+                    Poll::Ready(Ok(())) => 1,
+                    Poll::Ready(Err(())) => 2,
+                });
+                out.push(0);
+            }
+        }
+        for j in 0..3 {
+            out.push(counts[j].0.load(Ordering::SeqCst) as V);
+        }
+        out.push(ecount.0.load(Ordering::SeqCst) as V);
+    }
+    out
+}
+
 thread_local! {
     static SCRIPT: std::cell::RefCell<std::collections::VecDeque<usize>> = Default::default();
 }
 
 fn main() {
-    main_with(&[("spsc", spsc), ("spsc_mt", spsc_mt), ("cursor", cursor_ring), ("worker", worker_chan), ("worker_clone", worker_clone), ("rxring", rx_ring)]);
+    main_with(&[("spsc", spsc), ("spsc_mt", spsc_mt), ("cursor", cursor_ring), ("worker", worker_chan), ("worker_clone", worker_clone), ("rxring", rx_ring), ("txrings", tx_rings)]);
 }
